@@ -403,6 +403,140 @@ def _judge_reads(res, checks, bit, steps, k, when, fail):
             fail(what, steps, k, {"consumed_by": how, "read": when, "got": got, "expected": bit})
 
 
+def _session_with_ids(n_alloc, free_idx, role_order):
+    """a session whose live qubits have chosen virtual ids: allocate `n_alloc` qubits (ids 0..), measure the
+    ones in `free_idx` destructively (their ids become free again: the next allocation — the ancilla of
+    parity_meas — takes the LOWEST free id), and return the others in `role_order` (a permutation)"""
+    from harness import pipeline_sv as P
+    s = P.Session(simulate=True, max_qubits=10)
+    qs = s.qubits(n_alloc)
+    for i in free_idx:
+        qs[i].measure()
+    if free_idx:
+        s.flush()
+    kept = [q for i, q in enumerate(qs) if i not in free_idx]
+    s.qs = [kept[i] for i in role_order]
+    s.ex.trace.clear()
+    s.ex.meas_probs.clear()
+    return s
+
+
+def oracle_role_permutations(ctx, res):
+    """ROLE / ID PERMUTATIONS: the documented operators are stated in terms of the ROLES of the arguments
+    (control1, control2, target; i-th letter of the string <-> i-th qubit), whatever virtual ids the qubits
+    happen to have. Every order of ids relative to roles is exercised: the two-qubit SDK gates for every
+    ordered id pair, toffoli_gate for all 6 role assignments of three qubits (also with gaps in the ids),
+    parity_meas with the data qubits in every id order and the ancilla id below / between / above them
+    (alloc-free-alloc histories)."""
+    import itertools as it
+    tb = _tb()
+    rng = ctx.rng
+    cnot = np.array([[1, 0, 0, 0], [0, 1, 0, 0], [0, 0, 0, 1], [0, 0, 1, 0]], dtype=complex)
+    cz = np.diag([1, 1, 1, -1]).astype(complex)
+    tof = np.eye(8, dtype=complex)
+    tof[[6, 7]] = tof[[7, 6]]
+
+    def judge(name, s, roles_desc, psi, target, fn):
+        ids = [q.qubit_id for q in s.qs]
+        res.evaluations += 1
+        res.count("oracle:roles:" + name)
+        res.nontrivial.add(("roles", name, tuple(ids), tuple(np.round(psi, 6))))
+        try:
+            s.set_state(psi)
+            fn(*s.qs)
+            s.flush()
+            out = s.state()
+        finally:
+            s.close()
+        want = target @ psi
+        d = phase_dist(out, want)
+        if d > 1e-9:
+            res.failures.append({"what": f"{name} does not implement its operator when the qubits' virtual ids "
+                                         "are not in the order of their roles", "kf": None,
+                                 "input": {"function": name, "virtual_ids_by_role": dict(zip(roles_desc, ids)),
+                                           "psi": fmt_state(psi), "got": fmt_state(out),
+                                           "expected": fmt_state(want), "distance": d}})
+
+    # (1) the SDK's two-qubit gates, every ordered pair of ids out of three qubits
+    for a, b in it.permutations(range(3), 2):
+        for name, mat, meth in (("Qubit.cnot", cnot, "cnot"), ("Qubit.cphase", cz, "cphase")):
+            s = _session_with_ids(3, [], [a, b, 3 - a - b])
+            psi = rand_state(rng, 3)
+            judge(name, s, ["control", "target", "spectator"], psi, np.kron(mat, np.eye(2)),
+                  lambda c, t, _sp, meth=meth: getattr(c, meth)(t))
+    # (2) toffoli_gate: all 6 role assignments; contiguous ids and ids with a gap (id 0 or 1 freed)
+    n_rand = 3 if ctx.thorough else 1
+    for free in ([], [0], [1]):
+        for perm in it.permutations(range(3)):
+            inputs = [np.eye(8, dtype=complex)[j] for j in ((6, 7, 3, 5) if not free else (6, 5))]
+            inputs += [rand_state(rng, 3) for _ in range(n_rand)]
+            for psi in inputs:
+                s = _session_with_ids(3 + len(free), free, list(perm))
+                judge("toffoli_gate", s, ["control1", "control2", "target"], psi, tof, tb.toffoli_gate)
+    # (3) parity_meas: data qubits in every id order; ancilla id below, between, above the data ids
+    strings2 = ["XX", "ZZ", "XZ", "YX", "ZY"]
+    strings3 = ["XYZ", "ZZI", "IXX", "YIZ"]
+    histories = [(2, [], "above"), (3, [0], "below"), (3, [1], "between"),
+                 (3, [], "above"), (4, [0], "below"), (4, [1], "between"), (4, [2], "between")]
+    for n_alloc, free, where in histories:
+        n = n_alloc - len(free)
+        for perm in it.permutations(range(n)):
+            for bases in (strings2 if n == 2 else strings3):
+                negative = rng.random() < 0.5
+                if not ctx.thorough and rng.random() < (0.0 if n == 2 else 0.5):
+                    continue
+                s = _session_with_ids(n_alloc, free, list(perm))
+                ids = [q.qubit_id for q in s.qs]
+                psi = rand_state(rng, n)
+                signed = (-1 if negative else 1) * pauli_matrix(bases)
+                res.evaluations += 1
+                res.count("oracle:roles:parity_meas:ancilla-" + where)
+                res.nontrivial.add(("roles", "parity", bases, negative, tuple(ids)))
+                try:
+                    s.set_state(psi)
+                    m = tb.parity_meas(s.qs, ("-" if negative else "") + bases)
+                    s.flush()
+                    anc = [e[1][0] for e in s.ex.trace if e[0] == "qalloc"]
+                    trace = list(s.ex.trace)
+                    m = int(m)
+                    post = s.state()
+                    probs = s.ex.meas_probs[0] if s.ex.meas_probs else None
+                    raw = [e[2] for e in s.ex.trace if e[0] == "meas"]
+                finally:
+                    s.close()
+                # tie: relabelled by ROLE (i-th data qubit -> i, ancilla -> n) the real trace is the model's
+                relabel = {vid: i for i, vid in enumerate(ids)}
+                for a_id in anc:
+                    relabel.setdefault(a_id, n)
+                try:
+                    code_trace = [ev_json((mn, [relabel[q] for q in qs_], a_, b_)) for mn, qs_, a_, b_ in trace]
+                except KeyError:
+                    code_trace = "touches a qubit that is neither a data qubit nor the ancilla"
+                model_trace = ctx.driver.call({"op": "toolbox.parity", "bases": bases})["trace"]
+                if code_trace != model_trace:
+                    res.disagreements.append({"stream": "parity-model-by-role",
+                                              "input": {"bases": bases, "virtual_ids": ids, "ancilla": anc},
+                                              "model": model_trace, "code": code_trace})
+                want = ((np.eye(2 ** n) + (-1) ** m * signed) / 2) @ psi
+                p_want = float(np.vdot(want, want).real)
+                p_got = 1.0 if probs is None else probs[raw[0]]
+                bad = None
+                if abs(p_got - p_want) > 1e-9:
+                    bad = f"outcome {m} returned with probability {p_got:.9f}, the observable gives {p_want:.9f}"
+                elif p_want > 1e-12 and phase_dist(post, want / math.sqrt(p_want)) > 1e-8:
+                    bad = f"post-measurement state for outcome {m} is not the projection onto the eigenspace"
+                if bad:
+                    res.failures.append({"what": "parity_meas does not measure the requested signed Pauli string when "
+                                                 "the qubits' virtual ids are not in the order of their roles",
+                                         "kf": None,
+                                         "input": {"bases": ("-" if negative else "") + bases,
+                                                   "virtual_ids_of_data_qubits_in_string_order": ids,
+                                                   "ancilla_virtual_id": anc, "history":
+                                                   f"allocate {n_alloc} qubits, measure+free {free}, then parity_meas",
+                                                   "psi": fmt_state(psi), "detail": bad, "returned": m,
+                                                   "post_state": fmt_state(post)}})
+
+
 # ------------------------------------------------------------------ correspondence
 
 def ev_json(e):
@@ -581,6 +715,7 @@ def run(ctx):
     oracle_parity_sequences(ctx, res, short)
     oracle_parity_repeated(ctx, res)
     oracle_parity_consumption(ctx, res, short)
+    oracle_role_permutations(ctx, res)
     stream_parity_model(ctx, res, (short if ctx.thorough else short[::4]) + longer)
     stream_parity_sequence(ctx, res, 400 if ctx.thorough else 60)
     stream_pullback(ctx, res, short + [s for s in longer if len(s) <= 4])
@@ -597,6 +732,7 @@ def replay(ctx, payload):
     oracle_parity_sequences(ctx, res, all_strings(1) + all_strings(2) + all_strings(3))
     oracle_parity_repeated(ctx, res)
     oracle_parity_consumption(ctx, res, all_strings(1) + all_strings(2) + all_strings(3))
+    oracle_role_permutations(ctx, res)
     want = (payload.get("failure") or {}).get("what")
     still = [f for f in res.failures if want is None or f["what"] == want]
     for f in still[:3]:
